@@ -190,6 +190,8 @@ def cases(tier, seed=0):
   cs += _ea.cutoff_arg_cases('setfl_fs', tier)
   cs += _ea.long_label_cases('setfl_fs', tier)
   cs += _ea.long_label_cases('DL_POLY_EAM_fs', tier)
+  cs += _ea.pair_iterable_cases('setfl_fs', tier)
+  cs += _ea.pair_iterable_cases('DL_POLY_EAM_fs', tier)
   return cs
 
 
